@@ -75,11 +75,18 @@ func (rt *RoundTripper) cacheResponse(req *http.Request, resp *http.Response) {
 	}
 
 	if expires.IsZero() {
-		if rt.DefaultCacheTTL == 0 {
+		// an Expires header, which is not a valid date, means "already expired" (RFC 7234, section 5.3)
+		if rt.DefaultCacheTTL <= 0 || len(resp.Header.Get("Expires")) != 0 {
 			return
 		}
 
 		expires = time.Now().Add(rt.DefaultCacheTTL)
+	}
+
+	ttl := time.Until(expires)
+	if ttl <= 0 {
+		// the freshness lifetime is already over, nothing to cache
+		return
 	}
 
 	respDump, err := httputil.DumpResponse(resp, true)
@@ -89,7 +96,7 @@ func (rt *RoundTripper) cacheResponse(req *http.Request, resp *http.Response) {
 
 	ctx := req.Context()
 	cch := cache.Ctx(ctx)
-	cch.Set(ctx, cacheKey(req), respDump, time.Until(expires)) //nolint:errcheck
+	cch.Set(ctx, cacheKey(req), respDump, ttl) //nolint:errcheck
 }
 
 func cacheKey(req *http.Request) string {
